@@ -660,9 +660,10 @@ class IntermediateCodeGen(AbstractCodeGen):
         # symbol (oid as defval) or name for enumeration member
         else:
             # oid; symbol table and import map are keyed by translated names
-            symbol = isinstance(defval, str) and self.transOpers(defval) or defval
+            # (buggy MIB: DEFVAL { { ... } } is a list and names no symbol)
+            symbol = not isinstance(defval, list) and self.transOpers(defval)
 
-            if (defvalType[0][0] == 'ObjectIdentifier' and
+            if (defvalType[0][0] == 'ObjectIdentifier' and symbol and
                     (symbol in self.symbolTable[self.moduleName[0]] or
                      symbol in self._importMap)):
 
